@@ -73,7 +73,21 @@ def seeds():
     return "\n".join(out)
 
 
-GEN = {"theorems": theorems, "runs": runs, "findings": findings, "seeds": seeds}
+def summary():
+    man = json.load(open(os.path.join(ROOT, "MANIFEST.json")))
+    kf = json.load(open(os.path.join(ROOT, "KNOWN_FINDINGS.json")))["findings"]
+    out = ["| prop | what is proved and how it is tied to the code (from MANIFEST.level_claimed.text) | still-open findings | repaired findings |",
+           "|---|---|---|---|"]
+    for c in man["checks"]:
+        pid = c["property_id"]
+        known = [f["id"] for f in kf if pid in f.get("properties", []) and f["status"] == "known"]
+        fixed = [f["id"] for f in kf if pid in f.get("properties", []) and f["status"] == "fixed"]
+        out.append("| %s | %s | %s | %s |" % (pid, c["level_claimed"]["text"].replace("|", "\\|"),
+                                             ", ".join(known) or "-", ", ".join(fixed) or "-"))
+    return "\n".join(out)
+
+
+GEN = {"theorems": theorems, "runs": runs, "findings": findings, "seeds": seeds, "summary": summary}
 
 
 def main():
